@@ -94,7 +94,7 @@ def run_big(case):
             open(arc, "wb").write(mutate.build_from_tree(t2))
         else:
             wcase = {"phase": "write", "arc": arc, "filters": case["filters"], "members": members, "password": case.get("password"),
-                     "how": case.get("how", "writef"), "seed": case.get("seed", 1)}
+                     "how": case.get("how", "writef"), "seed": case.get("seed", 1), "zstd_window": case.get("zstd_window")}
             if wcase["how"] == "write":
                 from .. import bigmem
                 wcase["srcdir"] = os.path.join(wd, "src")
@@ -112,7 +112,7 @@ def run_big(case):
             rcase = {"phase": mode, "arc": arc, "members": members, "password": case.get("password"), "out": os.path.join(wd, "out"),
                      "limit": case.get("limit"), "rlimit_data": case.get("rlimit_data")}
             r = child(rcase, tmo)
-            if case.get("declared"):
+            if case.get("declared") or case.get("refusal_ok"):
                 ok = not r.get("timeout") and not r.get("died")          # any clean verdict; memory is what is judged
             elif mode == "testzip":
                 ok = r.get("error") is None and r.get("testzip") is None
@@ -196,6 +196,11 @@ def plan(tier, R):
     add("lzma2-between", F("LZMA2"), small * 10 + [(big, Z)] + small * 10, ("extract-path",))
     add("brotli-between", F("Brotli"), small * 30 + [(big, P_)] + small * 3, ("extract-factory",))
     add("copy-small-first", F("Copy"), small * 300 + [(512 * MiB, X)], ("extract-factory",))
+    # --- a ZStandard frame whose header declares a 1 GiB / 256 MiB window (two bytes of the archive size the decoder's history buffer):
+    #     refusing it is fine, decoding it within the budget is fine
+    add("zstd-window-2^30", F("ZStd"), [(big, Z)], ("extract-factory", "testzip"), zstd_window=30, refusal_ok=True)
+    add("zstd-window-2^28", F("ZStd"), small * 2 + [(512 * MiB, Z)], ("extract-path",), zstd_window=28, refusal_ok=True)
+    add("zstd-window-2^20-control", F("ZStd"), [(512 * MiB, Z)], ("extract-factory",), zstd_window=20)
     # --- under a finite data-segment limit (ulimit -d 8 GiB / 3 GiB) the extraction chunk stays capped
     add("lzma2-zeros-rlimit8g", F("LZMA2"), small * 2 + [(big, Z)] + small, ("extract-factory", "extract-path"), rlimit_data=8 * GiB)
     add("zstd-period-rlimit3g", F("ZStd"), [(big, P_)], ("extract-factory",), rlimit_data=3 * GiB)
